@@ -14,6 +14,7 @@ import (
 	"strconv"
 	"strings"
 	"unicode"
+	"unsafe"
 
 	"golang.org/x/tools/go/ssa"
 )
@@ -184,7 +185,8 @@ func (ex *Exec) lower(fr *Frame, v Value, rt reflect.Type) []lowAlt {
 			nn = ts.Or(nn, a.G)
 		}
 		if !nn.IsTrue() {
-			out = append(out, lowAlt{ts.Not(nn), reflect.Zero(rt)})
+			// no native call is made with a nil receiver/argument: that case must be infeasible
+			fr.panicIf(ts.Not(nn), nil, "possibly-nil value passed to a library function")
 		}
 		return out
 	case *VIface:
@@ -201,7 +203,7 @@ func (ex *Exec) lower(fr *Frame, v Value, rt reflect.Type) []lowAlt {
 			nn = ts.Or(nn, a.G)
 		}
 		if !nn.IsTrue() {
-			out = append(out, lowAlt{ts.Not(nn), reflect.Zero(rt)})
+			fr.panicIf(ts.Not(nn), nil, "possibly-nil interface passed to a library function")
 		}
 		return out
 	case *VPtr:
@@ -444,7 +446,20 @@ func resultType(sig *types.Signature) types.Type {
 
 // nativeCall intercepts static calls into the whitelisted native packages.
 func (ex *Exec) nativeCall(fr *Frame, fn *ssa.Function, args []Value, pc *Term, in ssa.Instruction) (Value, bool) {
-	if fn.Pkg == nil || !isNativePkgPath(fn.Pkg.Pkg.Path()) {
+	if fn.Pkg == nil {
+		// synthetic wrapper (promoted method of an embedded field) on a native receiver type
+		if recv := fn.Signature.Recv(); recv != nil && fn.Synthetic != "" {
+			rt := recv.Type()
+			if p, ok := rt.(*types.Pointer); ok {
+				rt = p.Elem()
+			}
+			if n, ok := rt.(*types.Named); ok && n.Obj().Pkg() != nil && isNativePkgPath(n.Obj().Pkg().Path()) {
+				return ex.nativeMethod(fr, args[0], fn.Name(), args[1:], resultType(fn.Signature)), true
+			}
+		}
+		return nil, false
+	}
+	if !isNativePkgPath(fn.Pkg.Pkg.Path()) {
 		return nil, false
 	}
 	resT := resultType(fn.Signature)
@@ -555,6 +570,24 @@ func (ex *Exec) nativeEq(x, y Value) *Term {
 
 func (ex *Exec) nativeTypeAssert(fr *Frame, nv *VNative, i *ssa.TypeAssert) Value {
 	panic(unsupported("type assertion directly on a native value"))
+}
+
+// nativeFieldAddr: address of a field of a native struct (used for promoted methods of embedded fields).
+func (ex *Exec) nativeFieldAddr(fr *Frame, nv *VNative, field int, in ssa.Instruction) Value {
+	out := &VNative{}
+	nn := ex.ts.False
+	for _, a := range nv.Alts {
+		rv := reflect.ValueOf(a.V)
+		if rv.Kind() != reflect.Pointer || rv.IsNil() || rv.Elem().Kind() != reflect.Struct {
+			panic(unsupported("field address of a non-struct native value"))
+		}
+		f := rv.Elem().Field(field)
+		p := reflect.NewAt(f.Type(), unsafe.Pointer(f.UnsafeAddr()))
+		out.Alts = append(out.Alts, NatAlt{a.G, p.Interface()})
+		nn = ex.ts.Or(nn, a.G)
+	}
+	fr.panicIf(ex.ts.Not(nn), in, "nil pointer dereference")
+	return out
 }
 
 // nativeGlobalInit returns the initial content of a global of a native package.
